@@ -5,7 +5,7 @@ import filter_functions as ff
 from filter_functions import numeric, util
 
 from .. import gens
-from ..common import arr2bits, bits2arr, driver
+from ..common import arr2bits, bits2arr, corr_script, driver
 
 THEOREMS = '''integrate_spec integrate_linear integrate_nonneg decay_amplitudes_entries gammaEntry_eq
 decay_amplitudes_parsimonious single_spectrum_is_broadcast subset_is_slice trace_tensor_completeness
@@ -14,8 +14,25 @@ total_infidelity_nonneg pulse_correlations_sum_to_total
 infidelity_congr_cm infidelity_lipschitz_cm absIntegral_is_integrate infidelity_scaling_law
 infidelity_perm_opers infidelity_perm_opers_entries infidelity_traceless_noise_opers
 infidelity_branches_agree '''.split()
-LEAN_MODULES = ['FFVerif.Props.C08', 'FFVerif.Props.C08Inv']
-PINS = ['pinIntegrate', 'pinIdentityElementIndex', 'C08_infidelity_source_shape']
+LEAN_MODULES = ['FFVerif.Props.C08', 'FFVerif.Props.C08Inv', 'FFVerif.Props.C08Integrand']
+# module C08Integrand (models Integrand / IntegrandShape): every branch of _get_integrand, filter-function path =
+# control-matrix path (also in the parsimonious loop and for pulse correlations), correlations sum to the total,
+# exactly the documented rejections
+THEOREMS = THEOREMS + [
+    'FFVerif.C08Integrand.integrand_entries_cm_total', 'FFVerif.C08Integrand.integrand_entries_cm_correlations_fidelity',
+    'FFVerif.C08Integrand.integrand_entries_cm_correlations_generalized', 'FFVerif.C08Integrand.integrand_entries_ff_total',
+    'FFVerif.C08Integrand.integrand_entries_ff_correlations', 'FFVerif.C08Integrand.filter_function_entries',
+    'FFVerif.C08Integrand.single_spectrum_is_broadcast', 'FFVerif.C08Integrand.integrand_ff_path_eq_cm_path',
+    'FFVerif.C08Integrand.getIntegrand_ff_path_eq_cm_path', 'FFVerif.C08Integrand.integrand_ff_slice_eq_cm_pair',
+    'FFVerif.C08Integrand.decay_amplitudes_path_independent', 'FFVerif.C08Integrand.decay_amplitudes_correlations_path_independent',
+    'FFVerif.C08Integrand.decay_amplitudes_correlations_entries', 'FFVerif.C08Integrand.infidelity_path_independent',
+    'FFVerif.C08Integrand.infidelityFromCM_eq_cm_path', 'FFVerif.C08Integrand.integrand_correlations_sum_to_total',
+    'FFVerif.C08Integrand.integrand_ff_correlations_sum_to_total', 'FFVerif.C08Integrand.decay_amplitudes_correlations_sum_to_total',
+    'FFVerif.C08Integrand.integrand_shape_documented', 'FFVerif.C08Integrand.integrand_rejects_iff',
+    'FFVerif.C08Integrand.index_check_iff', 'FFVerif.C08Integrand.frequency_axes_rejected_iff',
+    'FFVerif.C08Integrand.integrand_neither_source', 'FFVerif.C08Integrand.integrand_both_sources_fidelity',
+    'FFVerif.C08Integrand.einsum_strings']
+PINS = ['pinIntegrate', 'pinIdentityElementIndex', 'C08_infidelity_source_shape', 'pinGetIntegrand']
 GEN_SITES = ['einsum:numeric__get_integrand_', 'einsum:numeric_infidelity_0',
              'const:numeric.infidelity', 'const:numeric.calculate_decay_amplitudes']
 COMPONENTS = ['integrate', 'four_element_traces']
@@ -33,6 +50,10 @@ TRUSTED = ['modelled not verified: option plumbing of calculate_decay_amplitudes
 
 
 def correspondence(ctx):
+    # _get_integrand (all branches, recorded caller arguments, argument shapes / exception classes) and the
+    # path selection of calculate_decay_amplitudes / infidelity in every cache state vs the models Integrand /
+    # IntegrandShape
+    corr_script(ctx, 'corr_c08integrand', [])
     rng = ctx.rng('corr')
     lines, refs, comp = [], [], []
     for i in range(6 if ctx.tier == 'quick' else 60):
